@@ -99,6 +99,10 @@ def _stub_validate_data(self, X="no_validation", y="no_validation", reset=True, 
 
 
 def _stub_check_sample_weight(sample_weight, X, dtype=None, copy=False, only_non_negative=False):
+    if not is_sym(X) and not is_sym(sample_weight):
+        from sklearn.utils.validation import _check_sample_weight as real
+
+        return real(sample_weight, X, dtype=dtype, copy=copy, only_non_negative=only_non_negative)
     n = X.shape[0]
     if sample_weight is None:
         return arrays.ones(n)
